@@ -1066,7 +1066,7 @@ fn chown_ops() -> Vec<Op> {
 
 fn tree_space(max_entries: usize) -> TreeSpace {
     TreeSpace {
-        names: vec!["a", "b"],
+        names: vec!["a", "ab"],
         max_depth: 2,
         max_entries,
         contents: vec![b"x".to_vec()],
